@@ -36,6 +36,7 @@ func vUnwind(n int)    {}
 func vSteps(n int)     {}
 func vSliceCap(n int)  {}
 func vSincePositive()  {}
+func vParam(name string) int { return int(vModel[name]) }
 
 // ---- text vocabulary (native bodies build real strings with the requested display width)
 
